@@ -442,7 +442,13 @@ def matrix_classes(rng, n):
     lowr = rt.qmm(rng.standard_normal((n, 1, 4)), rng.standard_normal((1, n, 4)))
     zc = G.copy()
     zc[1:, 0] = 0
-    return {"generic": (G, None), "hermitian": (hermitian_from_spectrum(rng, lam), lam), "triangular": (tri, None), "normal": (normal, None),
+    zp = G.copy()
+    if n >= 2:
+        zp[1, 0] = 0          # exactly zero pivot of the first reflector, non-zero tail below it (n >= 3)
+    zd = G.copy()
+    for i in range(n):
+        zd[i, i] = 0          # zero diagonal: the first column of every 2 x 2 QR step starts with an exact zero
+    return {"zero_pivot_nonzero_tail": (zp, None), "zero_diagonal": (zd, None), "generic": (G, None), "hermitian": (hermitian_from_spectrum(rng, lam), lam), "triangular": (tri, None), "normal": (normal, None),
             "low_rank": (lowr, None), "integer": (rng.integers(-3, 4, size=(n, n, 4)).astype(float), None), "zero_first_subcolumn": (zc, None)}
 
 
@@ -468,7 +474,7 @@ def bounded(rep: Report, tier, seed):
     rng = np.random.default_rng(seed)
     nmax = 4 if tier == "quick" else 6
     budgets = (0, 1, 3, None) if tier == "quick" else (0, 1, 2, 5, 40, None)
-    b = rep.add_bounded(Bounded("variants_x_classes_x_budgets", f"n = 1..{nmax} x 7 matrix classes x 18 variant/shift/window settings x iteration budgets {budgets}",
+    b = rep.add_bounded(Bounded("variants_x_classes_x_budgets", f"n = 1..{nmax} x 9 matrix classes x 18 variant/shift/window settings x iteration budgets {budgets}",
                                 "Q unitary; ||Q T Q^H - A|| <= 1e-7 n ||A||; converged flag => strictly lower part <= 10 tol ||A||; Hermitian & converged => real diagonal = spectrum"))
     calls = variant_calls(rt)
     for n in range(1, nmax + 1):
